@@ -193,6 +193,7 @@ def check(case: t.Any, ctx: Ctx) -> None:
         if any(x == 5 or x == None for x in xs):  # noqa: E711
             ctx.fail('equality', 'foreign', f"{ident}; an instance equals a foreign object")
             return
+    tri_reported = False
     if order and not user_eq:
         for (x, y) in itertools.product(xs, xs):
             ctx.evaluated()
@@ -202,9 +203,14 @@ def check(case: t.Any, ctx: Ctx) -> None:
             if got != want_o:
                 ctx.fail('ordering', 'lexicographic', f"{ident}; {x!r} vs {y!r}: (<, <=, >, >=) = {got}, lexicographic order of {cmp_fields} gives {want_o}")
                 return
-            if eq and sum([x < y, x == y, x > y]) != 1:
-                ctx.fail('ordering', 'trichotomy', f"{ident}; {x!r} vs {y!r}: not exactly one of <, ==, > holds")
-                return
+            if sum([x < y, x == y, x > y]) != 1:
+                # (eq=False leaves identity equality while the default order=True still orders by fields: known finding D65)
+                if eq or not tri_reported:
+                    ctx.fail('ordering', 'trichotomy' if eq else 'trichotomy:eq=False-with-order', f"{ident}; {x!r} vs {y!r}: not exactly one of <, ==, > holds "
+                             f"(<: {x < y}, ==: {x == y}, >: {x > y})")
+                if eq:
+                    return
+                tri_reported = True      # (the recorded finding: go on with the remaining oracles for this point)
         (k, r) = outcome(lambda: xs[0] < 5)
         if k == 'ok':
             ctx.fail('ordering', 'foreign', f"{ident}; comparing an instance with an int returned {r!r} instead of raising TypeError")
